@@ -192,6 +192,40 @@ def cdfUntiedMW (n1 n2 : Nat) (u : Rat) : Rat :=
     let p := mwPoly n1 n2
     (polyPrefix p u.floor : Rat) / (polyTotal p : Rat)
 
+/-! ## Sparse enumeration (few ranks or a small first sample, pools of any size)
+
+The dense tables above have one entry per attainable `2U`, i.e. up to `2·n1·n2` of them; for a pool of
+a million values in two or three ranks that is hundreds of megabytes, while only a handful of
+allocation vectors have the right sum. `allocsSum` lists exactly those. `cdfSparse` is proved equal to
+`cdf` in `Props/C02Sparse.lean`. -/
+
+/-- allocation vectors with `r_k ≤ t_k` and `Σ r = n` -/
+def allocsSum : List Nat → Nat → List (List Nat)
+  | [], 0 => [[]]
+  | [], _ + 1 => []
+  | t :: ts, n => (List.range (min t n + 1)).flatMap fun r => (allocsSum ts (n - r)).map fun rs => r :: rs
+
+/-- `weight` with the multiplicative binomial -/
+def weightFast : List Nat → List Nat → Nat
+  | t :: ts, r :: rs => chooseFast t r * weightFast ts rs
+  | _, _ => 1
+
+def countSparse (t : List Nat) (n1 : Nat) (twoU : Int) : Nat :=
+  sumList (((allocsSum t n1).filter fun r => ((twoUof t r 0 : Nat) : Int) ≤ twoU).map (weightFast t))
+
+def countEqSparse (t : List Nat) (n1 : Nat) (twoU : Int) : Nat :=
+  sumList (((allocsSum t n1).filter fun r => ((twoUof t r 0 : Nat) : Int) == twoU).map (weightFast t))
+
+/-- how many allocation vectors `allocsSum` will list at most (to decide whether the sparse route is cheap) -/
+def sparseCost (t : List Nat) (n1 : Nat) : Nat := (t.map fun x => min x n1 + 1).foldl (· * ·) 1
+
+def cdfSparse (n1 n2 : Nat) (t : List Nat) (u : Rat) : Rat :=
+  if u < 0 then 0
+  else (countSparse (effT n1 n2 t) n1 (2 * u).floor : Rat) / (chooseFast (n1 + n2) n1 : Rat)
+
+def pmfAtSparse (n1 n2 : Nat) (t : List Nat) (twoU : Int) : Rat :=
+  (countEqSparse (effT n1 n2 t) n1 twoU : Rat) / (chooseFast (n1 + n2) n1 : Rat)
+
 /-- mass at the grid point `twoU/2` -/
 def pmfAt (n1 n2 : Nat) (t : List Nat) (twoU : Int) : Rat :=
   let p := fwdDP (effT n1 n2 t) n1
